@@ -302,7 +302,36 @@ fn c01_build(_ctx: &Ctx, tier: Tier, seed: u64) -> Vec<Job<'static>> {
             sc
         }),
     };
-    vec![ff, wild]
+    let disk = Job {
+        label: "storage faults: the n-th open fails, the staging file cannot be created, or the staging file sits on a full disk (every write fails with ENOSPC), at the sender or the receiver, alone or under link faults".into(),
+        n: n_wild / 5,
+        gen: Box::new(move |i| {
+            let mut rng = Rng::new(mix(seed ^ 0xC01D, i as u64));
+            let k = Knobs { envelope: rng.chance(1, 2), ..Knobs::default() };
+            let mut sc = gen::pair_cfg(&mut rng, &k);
+            gen::add_file_put(&mut sc, &mut rng, &k, 0, 1, 0);
+            if rng.chance(1, 2) {
+                let prof = estimate_profile(&sc);
+                sc.script = gen::wild_script(&mut rng, &sc, &prof, 0, 1);
+            }
+            add_storage_faults(&mut sc, &mut rng);
+            sc
+        }),
+    };
+    vec![ff, wild, disk]
+}
+
+/// 1..2 storage faults at seeded places
+pub fn add_storage_faults(sc: &mut Scenario, rng: &mut Rng) {
+    for _ in 0..rng.range(1, 2) {
+        let ent = if rng.chance(3, 4) { 1 } else { 0 };
+        let (op, nth) = match rng.below(4) {
+            0 | 1 => ("open", rng.below(3) as u32),
+            2 => ("tempfile", rng.below(2) as u32),
+            _ => ("full", rng.below(2) as u32),
+        };
+        sc.script.push(Entry::FsFault { ent, op: op.into(), nth });
+    }
 }
 
 fn c02_build(ctx: &Ctx, tier: Tier, seed: u64) -> Vec<Job<'static>> {
@@ -517,6 +546,11 @@ fn c03_build(ctx: &Ctx, tier: Tier, seed: u64) -> Vec<Job<'static>> {
             }
             if rng.chance(1, 6) {
                 sc.script.push(Entry::Stall { ent: rng.usize_below(2), at: Trigger::At(rng.range(0, 2_000_000)), us: rng.range(1000, 8_000_000) });
+            }
+            // storage faults: a failed open, no staging file, a full disk must not leave a
+            // transaction waiting for ever either
+            if rng.chance(1, 6) {
+                add_storage_faults(&mut sc, &mut rng);
             }
             // user requests: a cancel, or a suspend followed by a cancel, must not leave anything
             // waiting for ever either (a suspension that is never lifted is exempt)
